@@ -786,7 +786,7 @@ func (e *CEnv) index(x *CExpr) CVal {
 			it = e.indexTerm(iv)
 		} else {
 			iv = e.typed(iv, CVal{V: c.Fresh("dummy", bv.Sort.Idx)})
-			it = iv.V.(*Term)
+			it = e.asTerm(iv)
 			if it.Sort != bv.Sort.Idx {
 				e.fail("index sort mismatch in %s", exprString(x))
 			}
@@ -921,9 +921,9 @@ func (e *CEnv) call(x *CExpr) CVal {
 		} else {
 			k = e.typed(e.Eval(x.Args[1]), CVal{V: c.Fresh("dummy", mt.Sort.Idx)})
 		}
-		v := e.typed(e.Eval(x.Args[2]), CVal{V: c.Fresh("dummy", mt.Sort.Elem)})
+		v := e.typed(e.Eval(x.Args[2]), CVal{V: c.Fresh("dummy", mt.Sort.Elem), Signed: true})
 		r := m
-		r.V = c.Store(mt, k.V.(*Term), v.V.(*Term))
+		r.V = c.Store(mt, e.asTerm(k), e.asTerm(v))
 		return r
 	case "uint8", "uint16", "uint32", "uint64", "int8", "int16", "int32", "int64", "int", "uint", "byte":
 		v := e.Eval(x.Args[0])
@@ -1166,4 +1166,16 @@ func (fx *FnExec) localByName(fr *frame, name string, pos token.Pos) *ssa.Alloc 
 		}
 	}
 	return best
+}
+
+// asTerm gives the single SMT term of a scalar contract value (pointers become Refs).
+func (e *CEnv) asTerm(v CVal) *Term {
+	switch x := v.V.(type) {
+	case *Term:
+		return x
+	case PtrV:
+		return e.fx.ptrRef(x)
+	}
+	e.fail("scalar value expected, got %T", v.V)
+	return nil
 }
